@@ -24,7 +24,7 @@ ASSUMPTIONS = [
     "unit-dependent ranges are not 'fixed ranges': only their in-range behaviour is claimed",
     "the class of the exception raised for an invalid enum name/value is not claimed, only that one is raised and the previous value stays",
 ]
-REQUIRED_LABELS = {"quick": ["strict_reject", "lenient_accept", "ctor_reject", "enum_by_name", "dependent_unit", "history_lenient_out_of_range", "history_repeat_out_of_range_strict", "history_repeat_in_range"], "thorough": ["strict_reject", "lenient_accept", "ctor_reject", "enum_by_name", "dependent_unit"]}
+REQUIRED_LABELS = {"quick": ["strict_reject", "lenient_accept", "ctor_reject", "enum_by_name", "dependent_unit", "history_lenient_out_of_range", "history_repeat_out_of_range_strict", "history_repeat_in_range", "prelude_user_subclasses"], "thorough": ["strict_reject", "lenient_accept", "ctor_reject", "enum_by_name", "dependent_unit"]}
 
 
 def exhaustive(tier):
@@ -38,6 +38,8 @@ def plan(tier):
     for i in range(k):
         # the library may have been used before the assignment: nothing, a successful load, a failed load
         descs.append({"kind": "enum", "types": names[i::k], "prelude": ["none", "load_ok", "load_fails", "load_fails_nested"][i % 4]})
+    # the stock classes once more, after a program has derived classes of its own from them
+    descs.append({"kind": "enum", "types": names[::5], "prelude": "user_subclasses"})
     n = 8
     per = 300 if tier == "quick" else 5000
     for i in range(n):
@@ -106,12 +108,12 @@ def restore_flag(prev):
         rv.errors.RAISE_CONTROLLER_VALUE_ERRORS = prev
 
 
-def enum_type(ctx, tname):
+def enum_type(ctx, tname, cls_override=None):
     from rv.errors import ControllerValueError
 
     spec = specmodel.load()
     mt = spec[tname]
-    cls = classes()[mt.mtype]
+    cls = cls_override or classes()[mt.mtype]
     fresh = cls()
     for c in mt.controllers:
         ent = "%s.%s" % (tname, c.name)
@@ -415,7 +417,34 @@ def prelude(kind):
             pass
 
 
+def define_user_subclasses(stock):
+    """A program derives its own module classes from the stock ones: redefining a controller with another
+    range and default, adding a controller, adding nothing.  (Only the stock classes are looked at
+    afterwards; this runs in a process of its own because deriving a class re-registers its type name.)"""
+    from rv.controller import Controller
+
+    made = []
+    for cls in stock:
+        names = list(cls.controllers)
+        body = {}
+        if names:
+            first = cls.controllers[names[0]]
+            if hasattr(first.value_type, "max"):
+                body[names[0]] = Controller((0, 4096), 512)
+            body[names[-1] + "_extra"] = Controller((0, 10), 5)
+        made.append(type("Plain" + cls.__name__, (cls,), {}))
+        made.append(type("My" + cls.__name__, (cls,), dict(body)))
+    return made
+
+
 def run_shard(ctx, desc):
+    if desc["kind"] == "enum" and desc.get("prelude") == "user_subclasses":
+        stock = [classes()[specmodel.load()[t].mtype] for t in desc["types"]]
+        define_user_subclasses(stock)
+        ctx.label("prelude_user_subclasses")
+        for t, cls in zip(desc["types"], stock):
+            enum_type(ctx, t, cls_override=cls)
+        return
     if desc["kind"] == "enum":
         prelude(desc.get("prelude", "none"))
         ctx.label("prelude_" + desc.get("prelude", "none"))
